@@ -6,10 +6,12 @@ import IstioModel.C20.Spec
 
   case <n> ...                      -> ok            (state reset)
   cfg <24 tokens>                   -> ok <#v4 lines> <#v6 lines> cmds=<command log> | invalid:<why> | error:<why> | unmodelled:<why>
-  envcfg <24 flag tokens> <envoyUID> <resolv.conf servers>
+  envcfg <24 flag tokens> <envoyUID> <resolv.conf servers> <dual stack> <interface addresses> <via>
                                     -> same, the configuration going through DefaultConfig + flags +
                                        FillConfigFromEnvironment (tokens 10,11,24 are the environment variables, `~` = unset,
-                                       token 21 says whether the pod address is IPv6)
+                                       token 21 is ignored: the pod family comes from getLocalIP over the interface addresses;
+                                       <via> says which source - flag or environment variable - carried each value, the model
+                                       treats them alike)
   r <4|6> <i>                       -> line i of the iptables-restore input of that family | none
   p <hook> <4|6> <proto> <src> <dst> <sport> <dport> <inIf> <outIf> <uid> <gid> <ctstate> <mark> <connmark>
                                     -> the packet's fate: stream `packets`: `specFate` (the policy stated on
@@ -90,12 +92,14 @@ def step (s : DState) (toks : List String) : DState × String :=
     | some raw => compileRaw s raw
   | "envcfg" :: rest =>
     match rawOfTokens (rest.take 24), rest.drop 24 with
-    | some flags, [uid, resolv] =>
+    | some flags, [uid, resolv, dual, addrs, _via] =>
       let e : Environment := {
         ownerGroupsInclude := optEnv (rest.getD 9 "~"), ownerGroupsExclude := optEnv (rest.getD 10 "~"),
-        loCidr := optEnv (rest.getD 23 "~"), envoyUID := dec uid, localIsV6 := flags.enableIPv6,
-        resolvConf := decList resolv }
-      compileRaw s (flags.fill e)
+        loCidr := optEnv (rest.getD 23 "~"), envoyUID := dec uid, dualStack := tokBool dual,
+        localAddrs := decList addrs, resolvConf := decList resolv }
+      match flags.fill e with
+      | some raw => compileRaw s raw
+      | none => (s.reset, "error:environment")
     | _, _ => (s.reset, "bad-op")
   | ["r", fam, i] =>
     let arr := if fam == "6" then s.v6 else s.v4
